@@ -4,14 +4,27 @@ package apd
 
 // verifHarnesses maps harness names (as used by the engine) to their native entry points.
 var verifHarnesses = map[string]func(){
-	"VerifRound":     VerifRound,
-	"VerifAdd":       VerifAdd,
-	"VerifMul":       VerifMul,
-	"VerifQuo":       VerifQuo,
-	"VerifAbsNeg":    VerifAbsNeg,
-	"VerifDivInt":    VerifDivInt,
-	"VerifCmp":       VerifCmp,
-	"VerifQuantize":  VerifQuantize,
-	"VerifCeilFloor": VerifCeilFloor,
-	"VerifCmpTotal":  VerifCmpTotal,
+	"VerifRound":         VerifRound,
+	"VerifAdd":           VerifAdd,
+	"VerifMul":           VerifMul,
+	"VerifQuo":           VerifQuo,
+	"VerifAbsNeg":        VerifAbsNeg,
+	"VerifNumDigitsReal": VerifNumDigitsReal,
+	"VerifTableExp10":    VerifTableExp10,
+	"VerifReduce":        VerifReduce,
+	"VerifInt64":         VerifInt64,
+	"VerifModf":          VerifModf,
+	"VerifConstruct":     VerifConstruct,
+	"VerifSpecialBinary": VerifSpecialBinary,
+	"VerifSpecialUnary":  VerifSpecialUnary,
+	"VerifAlias":         VerifAlias,
+	"VerifAliasDecimal":  VerifAliasDecimal,
+	"VerifDestIndep":     VerifDestIndep,
+	"VerifTrapsIndep":    VerifTrapsIndep,
+	"VerifErrDecimal":    VerifErrDecimal,
+	"VerifDivInt":        VerifDivInt,
+	"VerifCmp":           VerifCmp,
+	"VerifQuantize":      VerifQuantize,
+	"VerifCeilFloor":     VerifCeilFloor,
+	"VerifCmpTotal":      VerifCmpTotal,
 }
